@@ -41,45 +41,45 @@ type apiCall struct {
 }
 
 type apiWorld struct {
-	bufs    map[string][]byte
-	snaps   map[string]string
-	patches map[string]v5.Patch
-	psnaps  map[string]string
-	lpatch  v4.Patch
-	lpsnap  string
-	pshape  map[string]*patchShape
-	lpshape *patchShape
+	bufs       map[string][]byte
+	snaps      map[string]string
+	patches    map[string]v5.Patch
+	psnaps     map[string]string
+	lpatch     v4.Patch
+	lpsnap     string
+	pshape     map[string]*patchShape
+	lpshape    *patchShape
 	sharedOptS *v5.ApplyOptions // the same for the schedule engine's small inputs (limit 12: one application copies 9 bytes)
-	sharedOpt *v5.ApplyOptions // ONE options value reused by several calls (a call must not leave anything in it)
-	optSnap   v5.ApplyOptions
-	keep    *[]keptResult // when set: every returned byte slice is remembered, to see whether a LATER call writes into it
-	calls   []apiCall
-	menu    []int // indices of the calls the history engine uses (the small-input calls are for the schedule engine)
-	solo    []string
+	sharedOpt  *v5.ApplyOptions // ONE options value reused by several calls (a call must not leave anything in it)
+	optSnap    v5.ApplyOptions
+	keep       *[]keptResult // when set: every returned byte slice is remembered, to see whether a LATER call writes into it
+	calls      []apiCall
+	menu       []int // indices of the calls the history engine uses (the small-input calls are for the schedule engine)
+	solo       []string
 }
 
 var apiTexts = map[string]string{
-	"docObj":   `{"a":{"b":[1,{"c":"<x>"}],"n":null},"k":1.0,"z":"s"}`,
-	"docArr":   ` [ {"a": 1}, [2, 3], "t" ] `,
-	"docBad":   `{"a":[1,}`,
-	"docNum":   `17`,
-	"patchOK":  `[{"op":"add","path":"/a/b/-","value":{"v":[null,"<"]}},{"op":"add","path":"/a/b/2/v/-","value":7},{"op":"copy","from":"/a/b/1","path":"/cp"},{"op":"test","path":"/cp","value":{ "c" : "<x>" }},{"op":"move","from":"/z","path":"/a/n"},{"op":"remove","path":"/k"},{"op":"replace","path":"/a/b/0","value":2}]`,
-	"patchArr": `[{"op":"add","path":"/1/-","value":{"q":1}},{"op":"copy","from":"/0","path":"/-"},{"op":"test","path":"/2","value":"t"}]`,
-	"patchTst": `[{"op":"add","path":"/w","value":1},{"op":"test","path":"/a/n","value":"no"}]`,
-	"patchNeg": `[{"op":"add","path":"/1/-1","value":9},{"op":"remove","path":"/-1"}]`,
+	"docObj":        `{"a":{"b":[1,{"c":"<x>"}],"n":null},"k":1.0,"z":"s"}`,
+	"docArr":        ` [ {"a": 1}, [2, 3], "t" ] `,
+	"docBad":        `{"a":[1,}`,
+	"docNum":        `17`,
+	"patchOK":       `[{"op":"add","path":"/a/b/-","value":{"v":[null,"<"]}},{"op":"add","path":"/a/b/2/v/-","value":7},{"op":"copy","from":"/a/b/1","path":"/cp"},{"op":"test","path":"/cp","value":{ "c" : "<x>" }},{"op":"move","from":"/z","path":"/a/n"},{"op":"remove","path":"/k"},{"op":"replace","path":"/a/b/0","value":2}]`,
+	"patchArr":      `[{"op":"add","path":"/1/-","value":{"q":1}},{"op":"copy","from":"/0","path":"/-"},{"op":"test","path":"/2","value":"t"}]`,
+	"patchTst":      `[{"op":"add","path":"/w","value":1},{"op":"test","path":"/a/n","value":"no"}]`,
+	"patchNeg":      `[{"op":"add","path":"/1/-1","value":9},{"op":"remove","path":"/-1"}]`,
 	"patchCopyFail": `[{"op":"copy","from":"/a/b","path":"/c1"},{"op":"test","path":"/k","value":"no"}]`,
 	"patchCopyBig":  `[{"op":"copy","from":"/a","path":"/c1"},{"op":"copy","from":"/a","path":"/c2"},{"op":"copy","from":"/a","path":"/c3"}]`,
-	"patchBad": `[{"op":"add","path":"/w","value":1},`,
-	"patchInv": `[{"op":"add","path":"/w"}]`,
-	"patchObj": `{}`,
-	"mp1":      `{"a":{"b":null,"new":{"x":null,"y":[1,{"q":null}]}},"z":null,"k":2}`,
-	"mp2":      `{"a":{"n":5},"k":null,"m":[1]}`,
-	"mpArr":    `[{"a":null}]`,
-	"tgtObj":   `{"a":{"b":[1,{"c":"<x>"}]},"k":1.00,"added":{"u":"é"}}`,
-	"arrA":     `[{"a":1},{"b":{"c":2}}]`,
-	"arrB":     `[{"a":2},{"b":{"c":2,"d":null}}]`,
-	"eqA":      `{"x":[1,null,{"y":"A"}],"w":true}`,
-	"eqB":      ` { "w" : true , "x" : [ 1 , null , { "y" : "A" } ] } `,
+	"patchBad":      `[{"op":"add","path":"/w","value":1},`,
+	"patchInv":      `[{"op":"add","path":"/w"}]`,
+	"patchObj":      `{}`,
+	"mp1":           `{"a":{"b":null,"new":{"x":null,"y":[1,{"q":null}]}},"z":null,"k":2}`,
+	"mp2":           `{"a":{"n":5},"k":null,"m":[1]}`,
+	"mpArr":         `[{"a":null}]`,
+	"tgtObj":        `{"a":{"b":[1,{"c":"<x>"}]},"k":1.00,"added":{"u":"é"}}`,
+	"arrA":          `[{"a":1},{"b":{"c":2}}]`,
+	"arrB":          `[{"a":2},{"b":{"c":2,"d":null}}]`,
+	"eqA":           `{"x":[1,null,{"y":"A"}],"w":true}`,
+	"eqB":           ` { "w" : true , "x" : [ 1 , null , { "y" : "A" } ] } `,
 	// small inputs for the schedule engine (fewer scheduling points per call)
 	"docS":      `{"a":{"b":[1]},"k":"<"}`,
 	"patchS":    `[{"op":"copy","from":"/a","path":"/c"},{"op":"test","path":"/c/b","value":[ 1 ]},{"op":"add","path":"/a/b/-","value":{"v":null}},{"op":"replace","path":"/a/b/1/v","value":[1]}]`,
@@ -152,7 +152,9 @@ func newAPIWorld() *apiWorld {
 		{"Equal(docObj,tgtObj)", true, func(w *apiWorld) ([]byte, error) { return boolBytes(v5.Equal(B("docObj"), B("tgtObj"))), nil }},
 		{"Equal(docBad,docBad) [malformed]", true, func(w *apiWorld) ([]byte, error) { return boolBytes(v5.Equal(B("docBad"), B("docBad"))), nil }},
 		{"Ps.Apply(docS)", true, func(w *apiWorld) ([]byte, error) { return w.patches["patchS"].Apply(B("docS")) }},
-		{"Ps.ApplyWithOptions(docS, SHARED opts limit=12)", true, func(w *apiWorld) ([]byte, error) { return w.patches["patchS"].ApplyWithOptions(B("docS"), w.sharedOptS) }},
+		{"Ps.ApplyWithOptions(docS, SHARED opts limit=12)", true, func(w *apiWorld) ([]byte, error) {
+			return w.patches["patchS"].ApplyWithOptions(B("docS"), w.sharedOptS)
+		}},
 		{"Ps.ApplyIndent(docS)", true, func(w *apiWorld) ([]byte, error) { return w.patches["patchS"].ApplyIndent(B("docS"), " ") }},
 		{"DecodePatch(patchS)+Apply(docS)", true, func(w *apiWorld) ([]byte, error) {
 			p, err := v5.DecodePatch(B("patchS"))
@@ -167,7 +169,9 @@ func newAPIWorld() *apiWorld {
 		{"PtstS.Apply(docS) [failing test]", true, func(w *apiWorld) ([]byte, error) { return w.patches["patchTstS"].Apply(B("docS")) }},
 		{"Ps.Apply(docBad) [malformed]", true, func(w *apiWorld) ([]byte, error) { return w.patches["patchS"].Apply(B("docBad")) }},
 		// one shared *ApplyOptions value (limit 40): a succeeding call, one that copies and then fails, one stopped by the limit
-		{"P.ApplyWithOptions(docObj, SHARED opts limit=40)", true, func(w *apiWorld) ([]byte, error) { return w.patches["patchOK"].ApplyWithOptions(B("docObj"), w.sharedOpt) }},
+		{"P.ApplyWithOptions(docObj, SHARED opts limit=40)", true, func(w *apiWorld) ([]byte, error) {
+			return w.patches["patchOK"].ApplyWithOptions(B("docObj"), w.sharedOpt)
+		}},
 		{"PcopyFail.ApplyWithOptions(docObj, SHARED opts) [copies, then a test fails]", true, func(w *apiWorld) ([]byte, error) {
 			return w.patches["patchCopyFail"].ApplyWithOptions(B("docObj"), w.sharedOpt)
 		}},
